@@ -68,7 +68,7 @@ class Prop:
                          'subscriber_fold_eq_rib_legacy_refuted', 'subscriber_fold_eq_rib_legacy_limit_refuted',
                          'subscriber_fold_eq_rib_legacy_purge_refuted']
     correspondence_name = ('Model/Subscribe.v run_sched/finish vs daemon/src/table_manager.rs TableManager::{subscribe, unsubscribe, insert_route, '
-                           'remove_route, soft_reset_in, unregister_peer, drop_families, drop_stale_families, update_nexthop_validity, peer_up, '
+                           'remove_route, soft_reset_in, unregister_peer, drop_families, drop_stale_families, mark_llgr_stale, drop_llgr_stale_families, update_nexthop_validity, peer_up, '
                            'peer_down} on real threads under a deterministic scheduler (harness/daemon/table_manager_hx.rs verif_sub_cases), '
                            'fold by bmp.rs apply_snapshot / track_peer_*')
     rule = ('a case is (programs of <= 3 threads, schedule); non-trivial when a subscription registers while another thread still has '
